@@ -22,6 +22,7 @@ type vStream struct {
 	reads  int
 	failAt int // Read calls after this many fail; <0: never
 	short  bool
+	chunk  int // > 0: a Read returns at most this many bytes
 }
 
 var errVerifIO = errors.New("verif: transport failure")
@@ -41,6 +42,9 @@ func (s *vStream) Read(p []byte) (int, error) {
 	max := len(p)
 	if avail < max {
 		max = avail
+	}
+	if s.chunk > 0 && max > s.chunk {
+		max = s.chunk
 	}
 	n := max
 	if s.short {
